@@ -9,16 +9,16 @@ git diff -- src > $base/confirm.diff
 if ! diff -q <(grep '^[+-]' $base/confirm.diff) <(grep '^[+-]' $out/patch.diff) >/dev/null; then echo "NOTE: worktree diff differs from out/patch.diff (using worktree diff)"; fi
 lib=$(timeout 1200 cargo test --offline --lib 2>&1 | grep "^test result" | head -1)
 demo_with=$(timeout 1200 cargo test --offline --features instrumentation --test demo_$tag 2>&1 | grep "^test result" | head -1)
-git stash push -q -- src
+git checkout -q -- src
 demo_without=$(timeout 1200 cargo test --offline --features instrumentation --test demo_$tag 2>&1 | grep "^test result" | head -1)
-git stash pop -q
+git apply $base/confirm.diff
 echo "lib(with patch): $lib"; echo "demo(with patch): $demo_with"; echo "demo(without): $demo_without"
 # our checks against it
 git -C /repo apply $base/confirm.diff || { echo "patch does not apply to /repo"; exit 3; }
 cd /verif
 checks=${3:-$pid}
 res=""
-for c in $checks; do r=$(./check $c --tier quick 2>&1 | grep -E "VIOLATION|KNOWN" | head -2 | cut -c1-200); res="$res$c: ${r:-no violation reported} ; "; done
+for c in $checks; do r=$(./check $c --tier quick 2>&1 | grep -E "VIOLATION" | head -2 | cut -c1-200); res="$res$c: ${r:-no violation reported} ; "; done
 git -C /repo checkout -- .
 echo "checks: $res"
 d=/verif/seeded/$pid-$tag; mkdir -p $d
